@@ -26,6 +26,7 @@ def run_check(cid):
 
 def main():
     own_only = '--own-only' in sys.argv
+    fast = '--fast' in sys.argv      # own check only, but recorded as a (partial) matrix row
     only = [a for a in sys.argv[1:] if not a.startswith('--')]
     seed = os.environ.get('VERIF_SEED', '0')
     sh(f'git -C /repo worktree remove --force {WT}')
@@ -47,7 +48,7 @@ def main():
             results = {own: run_check(own)}
             detected = [own] if results[own]['exit'] == 1 else []
             for cid in ORDER:
-                if cid == own or detected or own_only:
+                if cid == own or detected or own_only or fast:
                     continue
                 results[cid] = run_check(cid)
                 if results[cid]['exit'] == 1:
